@@ -162,9 +162,12 @@ def gen_history(seed, tier, classes=None, weights=None, n_ops=(6, 16),
       return None
     if r.random() < share_p and (name, dk) in shared_params:
       # same descriptors -> the very same array objects (aliasing)
-      for k, v in shared_params[(name, dk)].items():
+      prev = shared_params[(name, dk)]
+      for k, v in prev.items():
         if isinstance(v, dict) and k in p:
           p[k] = v
+          if k == "init" and "n_components" in prev:    # keep the array's shape consistent
+            p["n_components"] = prev["n_components"]
     shared_params[(name, dk)] = p
     if r.random() < verbose_p and name != "Covariance" and "verbose" in \
         cls_params(name):
